@@ -6,7 +6,7 @@ set -u
 N=6
 if [ "${1:-}" = "-j" ]; then N=$2; shift 2; fi
 S=/tmp/me/seeded_par; rm -rf $S; mkdir -p $S/logs
-ids=${@:-$(ls /verif/seeded)}
+ids=${@:-$(cd /verif/seeded && ls -d C*)}
 i=0
 for id in $ids; do echo $id >> $S/q$((i % N)); i=$((i+1)); done
 worker() {
